@@ -142,7 +142,7 @@ def accepted_prefix(op):
     return prims[:head + op["veto_at"]], "value"
 
 
-MODEL_STRIP = ("create", "asset", "deleter", "stored_only", "proxy", "named", "veto_at", "oneshot", "veto_ref", "badpos", "badtype")
+MODEL_STRIP = ("create", "asset", "deleter", "stored_only", "proxy", "named", "veto_at", "oneshot", "veto_ref", "badpos", "badtype", "veto_ident")
 
 
 def model_apply(drv, op, extra=None):
@@ -512,6 +512,21 @@ def prepare(world, op):
     if name is None:
         raise RuntimeError("executor: veto requested but parent has no sibling")
     tok = {"name": name, "orphan": None}
+    if op.get("veto_ident") and op["t"] == "createChild":
+        # refusal through the IDENTIFIER of an unnamed instance: the parent follows the EDIF policy, the first sibling
+        # carries an identifier, the new instance is offered the same one in another letter case
+        parent = W.get(pk, op[pf])
+        sib = getattr(parent, lst)[0]
+        ok = True
+        if parent._data.get(".NS") != "EDIF":
+            try:
+                parent[".NS"] = "EDIF"          # only a definition outside any library may change its policy
+            except ValueError:
+                ok = False                      # then the call is refused through the name, as usual
+        if ok:
+            if "EDIF.identifier" not in sib._data:
+                sib["EDIF.identifier"] = "Vi%s" % W.label(sib, ck)
+            tok["ident"] = sib._data["EDIF.identifier"].swapcase()
     if op["t"] != "createChild" and not op.get("create"):
         orphan = W.get(ck, op[cf])
         if getattr(orphan, _BACK[ck]) is None and orphan.name != name:
@@ -539,7 +554,10 @@ def execute_veto(world, op, tok):
     name = tok["name"]
     parent = W.get(pk, op[pf])
     try:
-        if t == "createChild":
+        if t == "createChild" and op.get("veto_ident") and tok.get("ident"):
+            ref = None if op.get("ref") is None else W.get("definition", op["ref"])
+            W.reg("instance", op["i"], parent.create_child(properties={"EDIF.identifier": tok["ident"]}, reference=ref))
+        elif t == "createChild":
             ref = None if op.get("ref") is None else W.get("definition", op["ref"])
             W.reg("instance", op["i"], parent.create_child(name=name, reference=ref))
         elif op.get("create"):
